@@ -1,11 +1,13 @@
 #!/usr/bin/env python3
 """Runs the registered quick (or thorough) checks against every seeded change in /verif/seeded and
 records which checks catch which change in seeded/<id>/meta.json and seeded/MATRIX.md.
-usage: tools/seed_matrix.py [quick|thorough] [id ...]"""
+usage: tools/seed_matrix.py [quick|thorough] [--own] [id ...]
+  --own: run only the check of the change's own property (results of other checks recorded earlier are kept)"""
 import json, os, subprocess, sys
 ROOT = os.path.dirname(os.path.dirname(os.path.abspath(__file__)))
 tier = sys.argv[1] if len(sys.argv) > 1 else "quick"
-only = sys.argv[2:]
+only = [a for a in sys.argv[2:] if not a.startswith("--")]
+OWN_ONLY = "--own" in sys.argv
 # which checks to run per seeded change: its own property plus neighbours sharing the code
 EXTRA = {"C01": ["C05", "C13"], "C02": ["C03", "C09", "C10"], "C03": ["C01", "C02", "C09"], "C04": ["C19", "C01"], "C05": ["C01"], "C08": ["C10"],
          "C09": ["C02", "C03"], "C10": ["C08", "C02"], "C11": ["C20"], "C12": ["C09"], "C13": ["C05", "C01"], "C14": ["C12"], "C16": ["C12"],
@@ -25,7 +27,7 @@ for sid in sorted(os.listdir(f"{ROOT}/seeded")):
     assert rc == 0, out
     caught = {}
     try:
-        for cid in [pid] + EXTRA.get(pid, []):
+        for cid in [pid] + ([] if OWN_ONLY else EXTRA.get(pid, [])):
             rc, out = sh(f"./check {cid} {tier}", ROOT)
             first = next((l for l in out.splitlines() if l.startswith("FAIL ")), "")
             caught[cid] = {"exit": rc, "first_failure": first[:300]}
@@ -44,7 +46,10 @@ for sid in sorted(os.listdir(f"{ROOT}/seeded")):
     finally:
         sh("git checkout -- .", "/repo")
     meta = json.load(open(f"{d}/meta.json"))
-    meta.setdefault("checks_run", {})[tier] = caught
+    if OWN_ONLY:
+        meta.setdefault("checks_run", {}).setdefault(tier, {}).update(caught)
+    else:
+        meta.setdefault("checks_run", {})[tier] = caught
     meta["caught_by"] = sorted({c for t in meta["checks_run"].values() for c, v in t.items() if v["exit"] == 1})
     json.dump(meta, open(f"{d}/meta.json", "w"), indent=1)
     rows.append((sid, caught))
